@@ -1,14 +1,16 @@
 package mon
 
 import (
-	"net/http"
 	"bytes"
 	"errors"
 	"fmt"
 	"math/rand/v2"
+	"net/http"
 	"strings"
+	"time"
 
 	"github.com/gookit/rux"
+	"github.com/gookit/rux/pkg/handlers"
 )
 
 func init() { Monitors["C05"] = runC05 }
@@ -184,6 +186,7 @@ type c05Chain struct {
 	Recover    bool // a recover()-and-go-on middleware (inert unless something panics)
 	Wrapper    bool // a buffering middleware: replaces c.Resp, replays status (default 200) and body after Next()
 	FailWrites bool // the client is gone: the first body write at the underlying writer fails
+	Timeout    bool // pkg/handlers.Timeout(1h) in front of everything: its deadline never passes
 }
 
 // c05Buffer is what a buffering/compressing middleware puts into c.Resp.
@@ -211,7 +214,7 @@ func (cc c05Chain) describe() any {
 	for i, h := range cc.Chain {
 		ss[i] = h.String()
 	}
-	return map[string]any{"recover_middleware_first": cc.Recover, "buffering_middleware_first": cc.Wrapper, "first_body_write_fails": cc.FailWrites, "chain": ss, "global": cc.NGlobal, "group": cc.NGroup, "route": len(cc.Chain) - 1 - cc.NGlobal - cc.NGroup, "total_handlers": len(cc.Chain)}
+	return map[string]any{"recover_middleware_first": cc.Recover, "buffering_middleware_first": cc.Wrapper, "first_body_write_fails": cc.FailWrites, "timeout_middleware_first(1h)": cc.Timeout, "chain": ss, "global": cc.NGlobal, "group": cc.NGroup, "route": len(cc.Chain) - 1 - cc.NGlobal - cc.NGroup, "total_handlers": len(cc.Chain)}
 }
 
 func (cc c05Chain) build() *rux.Router {
@@ -228,6 +231,9 @@ func (cc c05Chain) build() *rux.Router {
 				recOf(c).Ev("hook-sees-aborted=%v", c.IsAborted())
 			}
 		}
+	}
+	if cc.Timeout {
+		r.Use(handlers.Timeout(time.Hour))
 	}
 	if cc.Recover {
 		r.Use(func(c *rux.Context) {
@@ -410,6 +416,10 @@ func runC05(e *Env) {
 		cc.GlobalUseCalls = 1 + r.IntN(2)
 		cc.Recover = chance(r, 1, 4)
 		cc.FailWrites = chance(r, 1, 4)
+		cc.Timeout = chance(r, 1, 4)
+		if cc.Timeout {
+			t.Count("long.behind_timeout_middleware", 1)
+		}
 		if chance(r, 1, 4) {
 			plain := true
 			for _, h := range cc.Chain {
@@ -443,6 +453,8 @@ func runC05(e *Env) {
 	// an abort inside a chain that was reached through HandleContext (re-dispatch from the LAST
 	// handler of the outer chain... or from an earlier one): it must stop the outer chain as well
 	e.RunCases("redispatch-abort", e.N(1500, 100000), 0, c05Redispatch)
+	e.RunCases("mounted", e.N(600, 20000), 0, c05Mounted)
+	e.Require("mounted.checked", 500)
 	e.Require("redispatch.checked", 1000)
 	e.Require("abort.before_next", 1000)
 	e.Require("abort.after_next", 1000)
@@ -793,5 +805,93 @@ func c05Redispatch(t *T) {
 	}
 	if kind == "AbortWithStatus" && (grec.Status() != code || grec.NumWH() != 1) {
 		t.Fail("abort-status-lost-while-another-request-was-served", "AbortWithStatus(%d) in a%d, then another request served inside it: the writer saw %s", code, ga, grec.CallLog())
+	}
+}
+
+
+// c05Mounted: the chain ends in another rux handler mounted as a plain http.Handler (a sub-router
+// or a rux.HandlerFunc through WrapH); it records a status or nothing and writes no body. A
+// middleware of the outer chain aborts with a status after its Next() returned: nothing has been
+// committed (the mounted handler only reached the outer, lazy writer), so the abort's status is the
+// response status, sent by exactly one WriteHeader.
+func c05Mounted(t *T) {
+	r := t.R
+	nOuter := 1 + r.IntN(4)
+	ab := r.IntN(nOuter)
+	kind := pick(r, []string{"sub-router", "HandlerFunc"})
+	innerStatus := pick(r, []int{0, 200, 202, 404})
+	innerAborts := chance(r, 1, 3)
+	code := pick(r, []int{401, 403, 503, 200})
+	withMsg := chance(r, 1, 2)
+	useTimeout := chance(r, 1, 3)
+	t.Describe(func() any {
+		return map[string]any{"outer_middleware": nOuter, "aborting_middleware(after its Next)": ab, "mounted": kind, "mounted_handler_records_status": innerStatus, "mounted_handler_aborts_its_own_context": innerAborts, "abort_status": code, "with_message": withMsg, "timeout_middleware_first(1h)": useTimeout}
+	})
+	t.AutoSample()
+	innerFn := func(c *rux.Context) {
+		if innerStatus != 0 {
+			c.SetStatus(innerStatus)
+		}
+		if innerAborts {
+			c.Abort() // its own context: the outer chain is not concerned
+		}
+	}
+	var mounted http.Handler = rux.HandlerFunc(innerFn)
+	if kind == "sub-router" {
+		sub := rux.New()
+		sub.Any("/m", innerFn)
+		mounted = sub
+	}
+	router := rux.New()
+	if useTimeout {
+		router.Use(handlers.Timeout(time.Hour))
+	}
+	var mws []rux.HandlerFunc
+	for i := 0; i < nOuter; i++ {
+		i := i
+		mws = append(mws, func(c *rux.Context) {
+			rec := recOf(c)
+			rec.Ev("enter(o%d)", i)
+			c.Next()
+			if i == ab {
+				if withMsg {
+					c.AbortWithStatus(code, "denied")
+				} else {
+					c.AbortWithStatus(code)
+				}
+				rec.Ev("abort(o%d) aborted=%v", i, c.IsAborted())
+			}
+			rec.Ev("leave(o%d) aborted=%v", i, c.IsAborted())
+		})
+	}
+	router.GET("/m", rux.WrapH(mounted), mws...)
+	rec, pv, panicked := Serve(router, NewReq("GET", "/m"))
+	if panicked {
+		t.Fail("servehttp-panic", "a chain ending in a mounted rux handler panicked: %v", pv)
+		return
+	}
+	var want []string
+	for i := 0; i < nOuter; i++ {
+		want = append(want, fmt.Sprintf("enter(o%d)", i))
+	}
+	for i := nOuter - 1; i >= 0; i-- {
+		if i == ab {
+			want = append(want, fmt.Sprintf("abort(o%d) aborted=true", i))
+		}
+		want = append(want, fmt.Sprintf("leave(o%d) aborted=%v", i, i <= ab))
+	}
+	t.Count("mounted.checked", 1)
+	t.NonTrivial(fmt.Sprint(nOuter, ab, kind, innerStatus, innerAborts, code, withMsg, useTimeout))
+	t.Tracef("trace: %s; writer: %s", strings.Join(rec.Events, " "), rec.CallLog())
+	if !eventsEqual(want, rec.Events) {
+		t.Fail("mounted-trace", "outer chain of %d middleware ending in a mounted %s, o%d aborts after its Next():\n expected trace: %s\n observed trace: %s", nOuter, kind, ab, strings.Join(want, " "), strings.Join(rec.Events, " "))
+		return
+	}
+	wantBody := ""
+	if withMsg {
+		wantBody = "denied\n" // http.Error appends a newline
+	}
+	if rec.Status() != code || rec.NumWH() != 1 || rec.Body.String() != wantBody {
+		t.Fail("abort-status-not-applied-behind-mounted-handler", "the mounted %s recorded status %d and wrote nothing; o%d then called AbortWithStatus(%d%s): expected exactly one WriteHeader(%d) and body %q, the writer saw %s", kind, innerStatus, ab, code, map[bool]string{true: ", \"denied\"", false: ""}[withMsg], code, wantBody, rec.CallLog())
 	}
 }
